@@ -244,7 +244,7 @@ class Check:
             if f.get("property") != self.pid:
                 continue
             if obname in f.get("obligations", []):
-                sig = f.get("signature_obligation")
+                sig = f.get("signature_obligations", {}).get(obname, f.get("signature_obligation"))
                 if sig is None:
                     return f
                 r = by_name.get(sig)
